@@ -138,6 +138,13 @@ def write_cfg(ctx, name, consts):
 def binding_runs(quick):
     """list of (label, harness args, shard or None)"""
     jobs = []
+    # the step "request N replaces a value by another one of the same length and changes nothing else, request N+1
+    # reads it back", for every member of the byte-string value family (NUL first/middle/last, equal as C strings,
+    # last byte only, bytes >= 0x80, store_data() blobs), under every location x expire x storage (both tiers)
+    for loc in LOCS:
+        for exp in EXPS:
+            for st in (("memory",) if loc == "client" else ("memory", "files")):
+                jobs.append(("same", ["same", loc, exp, st, "pol" if (exp == "renew" and st == "memory") else "adv"], None))
     if quick:
         for loc in LOCS:
             for exp in EXPS:
